@@ -45,6 +45,7 @@ DS_DEFAULTS = {
     "effects": [],  # effect names
     "dispatch": None,  # term, or ('optkey', key) to pass the key as a plain string
     "overloads": [],  # [(alias, term)]
+    "late_overloads": [],  # [(alias, term)] registered on the dataset after the WHOLE term has been built
     "options": None,  # pre-set options P
     "default_options": None,  # default options D
     "abstract": False,
@@ -135,6 +136,7 @@ def children(t):
         if p["dispatch"] is not None and p["dispatch"][0] != "optkey":
             out.append(p["dispatch"])
         out += [x for _, x in p["overloads"]]
+        out += [x for _, x in p["late_overloads"]]
         return out
     raise ValueError(f"unknown term {t!r}")
 
